@@ -4,7 +4,8 @@
    mailbox dump observed on the implementation; the model (and, in lock step,
    the reference spec) recompute them under vm_compute.  Flag sets are compared
    as sets, everything else literally. *)
-From PV Require Import Base.Prelude Wire.SeqSet RefModel.Flags RefModel.Model RefModel.Spec.
+From PV Require Import Base.Prelude Wire.SeqSet RefModel.Flags RefModel.Model RefModel.Spec
+  RefModel.Proofs.
 Local Open Scope N_scope.
 
 Definition optN_eqb := option_eqb N.eqb.
@@ -77,10 +78,24 @@ Fixpoint chk_steps (st : state) (sp : sstate) (l : list step_obs) : bool :=
     && ssel_eqb (sp_sel sp1) (option_map abs_sel (st_sel st1))
     && chk_steps st1 sp1 r
   end.
+(* the initial state satisfies the hypothesis of the refinement theorem
+   (Proofs.init_ok_Inv / init_ok_maildir_Inv) *)
+Definition case_init_ok (bk : backend) (bs : boxes) : bool :=
+  let st := mkState bk bs None in
+  match bk with
+  | Dict => init_ok st
+  | Maildir =>
+    match bs with
+    | [] => true
+    | (_, b0) :: _ =>
+      init_ok_maildir st (b_perm b0)
+      && forallb (fun nb => eqb_list flag_eqb (b_perm (snd nb)) (b_perm b0)) bs
+    end
+  end.
 Definition chk_case (c : case) : bool :=
   let '(bk, bs, l) := c in
   let st := mkState bk bs None in
-  chk_steps st (abs st) l.
+  case_init_ok bk bs && chk_steps st (abs st) l.
 
 (* diagnostics for a failing case: per step (model=impl?, dump ok?, spec=model?) and
    the model's response *)
@@ -116,3 +131,8 @@ Definition chk_maildir_flags (c : fset * fset * fset) : bool :=
 (* (attribute, FetchAttribute.set_seen) *)
 Definition chk_set_seen (c : fattr * bool) : bool :=
   Bool.eqb (attr_set_seen (fst c)) (snd c) && Bool.eqb (rfc_sets_seen (fst c)) (snd c).
+
+(* (source keyword table, destination keyword table, flags,
+    dest.from_maildir(src.to_maildir(flags))) *)
+Definition chk_maildir_carry (c : list flag * list flag * fset * fset) : bool :=
+  let '(src, dst, fl, r) := c in fset_eqb (maildir_carry src dst fl) r.
